@@ -28,7 +28,19 @@ def COMMUNITY(**extra):
 
 
 
+def ipv8_shaped(d):
+    """22-byte prefix (0x00, version 1 or 2, 20-byte community id) + at least the message id"""
+    return len(d) >= 23 and d[0] == 0 and (d[1] == 1 or d[1] == 2)
+
+
 def on_create_and_on_data_contracts():
+    # what on_data treats as "IPv8 traffic" (routed into the overlays instead of being handed to the application as raw data) is exactly
+    # the byte strings that can be an IPv8 packet; everything else that comes back through a circuit is the application's data
+    contract(f"{ES}::DataChecker.could_be_ipv8", "could_be_ipv8==ipv8-shaped",
+             vars={"DCK": EXPR(f"resolve_class('{ES}::DataChecker')"), "data": BYTES}, call="DCK.could_be_ipv8(data)", raises=[],
+             ensures=["result == ipv8_shaped(data)"], covers=["result == True", "result == False"],
+             note="shared with C06 (`could_be_ipv8==spec`): return data is classified as IPv8 traffic only if it can be an IPv8 packet")
+
     # ---------------------------------------------------------------------------------------------------------------------
     # create: an id already in use (as own circuit, relay or exit) is refused
     RCACHE = EFFECT("request_cache", has={"returns": BOOL}, add={}, get={"returns": ANY}, pop={"returns": ANY})
@@ -76,6 +88,64 @@ def on_create_and_on_data_contracts():
                       "self.exit_sockets[payload.circuit_id].hop.peer.public_key.key_to_bin() == payload.node_public_key",
                       "len(calls('send_cell')) == 1"],
              note="replies of the new circuit (created answer, later tunnelled data) go to the address the create came from")
+
+    # ---------------------------------------------------------------------------------------------------------------------
+    # originator side: an answer whose authenticator does not verify (anybody can send a plaintext CREATED naming a circuit id and try
+    # all 65536 identifiers) changes NOTHING about the circuit under construction - it is not extended, not re-keyed and not torn down
+    SK = OBJ("ipv8/keyvault/private/openssl.py::OpenSSLSK", ec=OBJ("contracts/tunnel_common.py::DHPrivateKeyModel", secret=BYTES))
+    UH = HOP(keys=False, dh_secret=SK, peer=PEER_OBJ(public_key=OBJ("ipv8/keyvault/private/openssl.py::OpenSSLSK",
+                                                                     ec=OBJ("contracts/tunnel_common.py::DHPrivateKeyModel", secret=BYTES))))
+    contract(f"{TC}::TunnelCommunity._ours_on_created_extended", "forged-answer-leaves-the-circuit-alone",
+             vars={"e1": HOP(), "uh": UH, "circ": CIRCUIT("[e1]", unverified_hop=EXPR("uh")),
+                   "self": OBJ(f"{TC}::TunnelCommunity", logger=LOGGER(), circuits=EXPR("{circ.circuit_id: circ}"),
+                               crypto=EXPR(f"resolve_class('{CR}::TunnelCrypto')()"), serializer=EXPR("default_serializer"),
+                               request_cache=EFFECT("request_cache", pop={"returns": OBJ("ipv8/messaging/anonymization/caches.py::RetryRequestCache", max_tries=INT)})),
+                   "payload": OBJ(f"{PL}::CreatedPayload", circuit_id=INT, identifier=INT, key=BYTES, auth=BYTES, candidates_enc=BYTES)},
+             requires=["payload.auth != uf_bytes('hmac', (uf_bytes('dh', uh.dh_secret.ec.secret, payload.key)"
+                       " + uf_bytes('dh', uh.dh_secret.ec.secret, uf_bytes('crypt_pk', uh.peer.public_key.ec.secret)))[:32], payload.key)"],
+             call="self._ours_on_created_extended(circ.circuit_id, payload)", raises=["CryptoException"],
+             stubs={f"{TC}::TunnelCommunity.send_extend": {"event": "send_extend", "note": "next extension"},
+                    f"{TC}::TunnelCommunity.remove_circuit": {"event": "remove_circuit", "note": "tear-down (C09)"},
+                    "ipv8/messaging/serialization.py::Serializer.unpack": {"returns": "([], 0)", "note": "candidate list decoding (C02/C03)"}},
+             ensures=["False"],
+             ensures_raise=["len(calls('remove_circuit')) == 0 and len(calls('send_extend')) == 0 and len(calls('request_cache.pop')) == 0",
+                            "circ.unverified_hop is uh and uh.keys is None and len(circ._hops) == 1 and circ._hops[0] is e1",
+                            "circ.circuit_id in self.circuits"],
+             covers=["raised == 'CryptoException'"],
+             note="a wrong authenticator is reported (CryptoException, logged by the caller) and otherwise ignored: the pending attempt stays "
+                  "pending for the genuine answer")
+
+    # ---------------------------------------------------------------------------------------------------------------------
+    # relay side of a CREATED answer (normal case): the two new routes are filed under the ids the RELAY chose and remembered in its request
+    # cache - never under an id taken from the received cell - and every other route of the node stays exactly as it was
+    CRQ = OBJ("ipv8/messaging/anonymization/caches.py::CreateRequestCache", from_circuit_id=RANGE(0, 2 ** 32 - 1),
+              to_circuit_id=RANGE(0, 2 ** 32 - 1), peer=PEER_OBJ(), to_peer=PEER_OBJ(), extend_identifier=INT)
+    contract(f"{TC}::TunnelCommunity.on_created", "on_created.relay-side.routes-filed-under-the-relays-own-ids",
+             vars={"hc1": HOP(), "rq": CRQ, "xs": EXITSOCK, "r_other": RELAY(), "k_other": RANGE(0, 2 ** 32 - 1),
+                   "self": OBJ(f"{TC}::TunnelCommunity", logger=LOGGER(), exit_sockets=EXPR("{rq.from_circuit_id: xs}"),
+                               relay_from_to=EXPR("{k_other: r_other}"),
+                               request_cache=EFFECT("request_cache", has={"returns": EXPR("True")}, pop={"returns": EXPR("rq")},
+                                                    get={"returns": EXPR("None")})),
+                   "src": ADDRESS,
+                   "payload": OBJ(f"{PL}::CreatedPayload", circuit_id=RANGE(0, 2 ** 32 - 1), identifier=INT, key=BYTES, auth=BYTES,
+                                  candidates_enc=BYTES),
+                   "H": EXPR(f"undecorated({TCLS}, 'on_created')")},
+             requires=["rq.from_circuit_id != rq.to_circuit_id", "k_other != rq.from_circuit_id", "k_other != rq.to_circuit_id",
+                       "xs.circuit_id == rq.from_circuit_id"],
+             call="H(self, src, payload, None)", raises=[],
+             stubs={f"{TC}::TunnelCommunity.send_cell": {"event": "send_cell", "note": "extended answer (C04/C02)"},
+                    f"{TC}::TunnelCommunity.remove_exit_socket": {"event": "remove_exit_socket", "note": "own contracts in C09/C11"}},
+             # the exit entry of the incoming side goes away AT ONCE (not after the grace period): the guard "a pending extension
+             # completes only while the incoming side is still an exit entry" must hold again immediately for later answers
+             on_effect={"spawn:remove_exit_socket": ["args[1] == rq.from_circuit_id", "ev.kwargs.get('remove_now') == True"]},
+             ensures=["len(calls('spawn:remove_exit_socket')) == 1",
+                      "len(self.relay_from_to) == 3 and self.relay_from_to[k_other] is r_other",
+                      "self.relay_from_to[rq.to_circuit_id].circuit_id == rq.from_circuit_id"
+                      " and self.relay_from_to[rq.to_circuit_id].hop.peer is rq.peer and self.relay_from_to[rq.to_circuit_id].hop.keys is xs.hop.keys",
+                      "self.relay_from_to[rq.from_circuit_id].circuit_id == rq.to_circuit_id"
+                      " and self.relay_from_to[rq.from_circuit_id].hop.peer is rq.to_peer and self.relay_from_to[rq.from_circuit_id].hop.keys is xs.hop.keys",
+                      "len(calls('send_cell')) == 1 and calls('send_cell')[0].args[1] == rq.peer.address"],
+             note="whatever circuit id the answering node writes into its CREATED cell, an unrelated circuit's route is never replaced")
 
     # ---------------------------------------------------------------------------------------------------------------------
     # data: delivery only for an own circuit, from its first hop, labelled with that circuit; everything else exits or is dropped
